@@ -123,9 +123,13 @@ RangeValue(e, vals) ==
 \* ---- what one log line contributes
 Conv(conv, s) == CASE conv = "" -> ParseNum(s) [] conv = "bytes" -> ParseBytes(s) [] conv \in {"duration", "duration_seconds"} -> ParseDur(s)
 \* [ok: contributes, open: outside the modelled grammar, val]
+\* label matchers written behind the unwrap expression: the sample counts only if all of them hold on the entry's labels
+UnwrapFilters(e) == IF "filters" \in DOMAIN e.unwrap THEN e.unwrap.filters ELSE <<>>
+PostOk(e, ent) == \A k \in DOMAIN UnwrapFilters(e) :
+                    LET m == UnwrapFilters(e)[k] IN ValueMatch(m.op, m.val, m.re, Get(ent.L, m.label))
 SampleOf(e, ent) ==
   IF e.unwrap.on
-    THEN IF ~Has(ent.L, e.unwrap.label) THEN [ok |-> FALSE, open |-> FALSE, val |-> [n |-> 0, d |-> 1]]
+    THEN IF ~Has(ent.L, e.unwrap.label) \/ ~PostOk(e, ent) THEN [ok |-> FALSE, open |-> FALSE, val |-> [n |-> 0, d |-> 1]]
          ELSE LET p == Conv(e.unwrap.conv, Get(ent.L, e.unwrap.label)) IN
               [ok |-> TRUE, open |-> p.k # "val", val |-> [n |-> p.n, d |-> p.d]]
   ELSE IF e.op \in {"bytes_over_time", "bytes_rate"} THEN [ok |-> TRUE, open |-> FALSE, val |-> [n |-> Len(ent.line), d |-> 1]]
